@@ -135,6 +135,7 @@ struct _stack_el {
 struct _stack {
 	struct _stack_el *tail;
 	struct _stack_el *cur_ptr;
+	int tags_skipped;	/* Outer tags consumed by the earlier (restarted) calls */
 };
 
 static struct _stack_el *
@@ -211,6 +212,9 @@ OCTET_STRING_decode_ber(const asn_codec_ctx_t *opt_codec_ctx,
 
 	switch(ctx->phase) {
 	case 0:
+	    {
+		/* Tags of the chain given to us in the previous calls */
+		int tags_skipped = ctx->step;
 		/*
 		 * Check tags.
 		 */
@@ -228,6 +232,7 @@ OCTET_STRING_decode_ber(const asn_codec_ctx_t *opt_codec_ctx,
 			if(!ctx->ptr) {
 				RETURN(RC_FAIL);
 			}
+			((struct _stack *)ctx->ptr)->tags_skipped = tags_skipped;
 		} else {
 			/*
 			 * Jump into stackless primitive decoding.
@@ -240,6 +245,7 @@ OCTET_STRING_decode_ber(const asn_codec_ctx_t *opt_codec_ctx,
 		}
 
 		NEXT_PHASE(ctx);
+	    }
 		/* Fall through */
 	case 1:
 	phase1:
@@ -343,16 +349,33 @@ OCTET_STRING_decode_ber(const asn_codec_ctx_t *opt_codec_ctx,
 		case ASN_OSUBV_STR:
 		default:
 			if(sel) {
-				unsigned level = sel->cont_level;
-				if(level < td->all_tags_count) {
-					expected_tag = td->all_tags[level];
-					break;
-				} else if(td->all_tags_count) {
-					expected_tag = td->all_tags
-						[td->all_tags_count - 1];
-					break;
+				/*
+				 * (sel) is the container of the TLV being examined,
+				 * the contents are one tagging level deeper.
+				 * Past the type's own (EXPLICIT) tags there are only
+				 * segments of a constructed string: X.690 8.6.4,
+				 * 8.7.3, 8.23.6 make them BIT STRING or OCTET STRING
+				 * whatever the (restricted character) string type is.
+				 */
+				unsigned level = sel->cont_level + 1 + stck->tags_skipped;
+				if(tag_mode == 1)
+					level--;	/* An EXPLICIT tag given by the caller */
+				if(level < td->tags_count) {
+					expected_tag = td->tags[level];
+				} else if(level == td->tags_count && td->tags_count
+					&& tlv_tag == td->tags[td->tags_count - 1]) {
+					/*
+					 * Be liberal: first level segments carrying
+					 * the tag of the string type itself were the
+					 * only form accepted by the earlier versions.
+					 */
+					expected_tag = tlv_tag;
+				} else if(type_variant == ASN_OSUBV_BIT) {
+					expected_tag = (ASN_TAG_CLASS_UNIVERSAL | (3 << 2));
+				} else {
+					expected_tag = (ASN_TAG_CLASS_UNIVERSAL | (4 << 2));
 				}
-				/* else, Fall through */
+				break;
 			}
 			/* Fall through */
 		case ASN_OSUBV_ANY:
